@@ -465,6 +465,7 @@ class FullTie(object):
         self.max_atoms = max_atoms
         self.max_cases = max_cases
         self.n = 0
+        self.flags = []
 
     def add(self, lib, x, impl, where, atoms=None, hook=None):
         ctx = self.ctx
@@ -497,10 +498,12 @@ class FullTie(object):
                 continue
             # hypotheses of the composition theorems, observed on every scheme sent: queries well-formed, no `*` suffix,
             # no molecule-level prefix (the last one is what C04_decompose_union needs; a table observation for the shipped schemes)
-            for flag in ('schemewf', 'nostar', 'nomolprefix'):
+            for flag in ('schemewf', 'nostar', 'nomolprefix', 'connected'):
                 ctx.count('scheme_%s_%s' % (flag, 'yes' if rep.get(flag) else 'NO'))
-            if not rep.get('schemewf'):
-                raise common.MachineryError('the model reader returned an ill-formed query for a scheme pattern (contradicts C02_load_wf)')
+            if not rep.get('schemewf') or not rep.get('connected'):
+                raise common.MachineryError('the model reader returned an ill-formed or disconnected query for a scheme pattern '
+                                            '(contradicts C02_load_wf / C04_load_connected)')
+            self.flags.append({k: bool(rep.get(k)) for k in ('nostar', 'nomolprefix')})
             table = {str(k): str(v[0][1]) for k, v in s.remaps.items() if v}
             for (g, impl, where, atoms, hook), r in zip(cases, rep['res']):
                 ctx.count('corr_c02.full')
